@@ -13,6 +13,7 @@ Variable waits : E -> list kp -> bool.
 Variable eff : bid -> list kp -> E -> E * option res.
 Variable is_cprh : bid -> bool.
 Variable cpr_lookup : E -> option bid.
+Variable feeds : bid -> list kp -> E -> list kp.
 Variable restart : E -> E.
 Variable pfeed : str -> PS -> PS * list kp.
 Variable pflush : PS -> PS * list kp.
@@ -20,12 +21,15 @@ Variable res_eof : res.
 
 Notation core := (core E bid res).
 Notation sys := (sys E bid res PS).
-Notation process_q := (process_q lookup lookup_scan waits eff is_cprh cpr_lookup).
-Notation pk := (@pk E bid res PS lookup lookup_scan waits eff is_cprh cpr_lookup).
-Notation feed_keys := (@feed_keys E bid res PS lookup lookup_scan waits eff is_cprh cpr_lookup).
-Notation do_read := (@do_read E bid res PS lookup lookup_scan waits eff is_cprh cpr_lookup pfeed res_eof).
-Notation step := (@step E bid res PS lookup lookup_scan waits eff is_cprh cpr_lookup restart pfeed pflush res_eof).
-Notation run := (@run E bid res PS lookup lookup_scan waits eff is_cprh cpr_lookup restart pfeed pflush res_eof).
+Notation process_q := (process_q lookup lookup_scan waits eff is_cprh cpr_lookup feeds).
+Notation pk := (@pk E bid res PS lookup lookup_scan waits eff is_cprh cpr_lookup feeds).
+Notation feed_keys := (@feed_keys E bid res PS lookup lookup_scan waits eff is_cprh cpr_lookup feeds).
+Notation do_read := (@do_read E bid res PS lookup lookup_scan waits eff is_cprh cpr_lookup feeds pfeed res_eof).
+Notation step := (@step E bid res PS lookup lookup_scan waits eff is_cprh cpr_lookup feeds restart pfeed pflush res_eof).
+Notation run := (@run E bid res PS lookup lookup_scan waits eff is_cprh cpr_lookup feeds restart pfeed pflush res_eof).
+
+(* the binding set's handlers feed nothing (C17_Script covers feeding handlers) *)
+Hypothesis Hnf : forall b ks e, feeds b ks e = [].
 
 Definition Inv (s : sys) : Prop :=
   nc (acc (co s)) ++ nc (ikeys (store s)) ++ nc (ikeys (queue s)) = nc (decoded s)
@@ -56,7 +60,7 @@ Proof.
   intros A (H1 & H2 & H3 & H4 & H5). unfold C17_Typeahead.pk.
   unfold Inv, with_co, with_queue; cbn [co store queue decoded at_].
   rewrite (H3 A) in *. cbn [ikeys nc filter app] in *.
-  rewrite (@process_q_acc E bid res lookup lookup_scan waits eff is_cprh cpr_lookup (queue s) (co s) H5).
+  rewrite (@process_q_acc E bid res lookup lookup_scan waits eff is_cprh cpr_lookup feeds Hnf (queue s) (co s) H5).
   split; [exact H1|]. split; [intros D; contradiction|]. split; [auto|]. split; [auto|].
   apply process_q_pb. exact H5.
 Qed.
